@@ -6,6 +6,7 @@ package database
 import (
 	"errors"
 	"sync"
+	"time"
 
 	"github.com/safing/portbase/database/accessor"
 	"github.com/safing/portbase/database/query"
@@ -32,7 +33,16 @@ func (a *c14Acc) Exists(key string) bool                    { return key == "N" 
 func (a *c14Acc) Set(key string, value interface{}) error   { return errors.New("no") }
 func (a *c14Acc) Type() string                              { return "verif" }
 
-func (r *c14Rec) GetAccessor(self record.Record) accessor.Accessor { return &c14Acc{r} }
+// c14SlowMatch: natively, evaluating a query condition on the record takes a
+// while (widens the window in which the writer is inside the notification)
+var c14SlowMatch bool
+
+func (r *c14Rec) GetAccessor(self record.Record) accessor.Accessor {
+	if c14SlowMatch {
+		rt.NativePause()
+	}
+	return &c14Acc{r}
+}
 
 func c14Setup() *Controller {
 	initialized.Set()
@@ -293,4 +303,54 @@ func VerifC14_Hooks() {
 		}
 	}
 	rt.Reach("hooks-get")
+}
+
+// ---- Cancel racing with a writer that is inside the notification (G2: one
+// preemption at any synchronisation operation): the write does not panic and
+// nothing is delivered after Cancel returned ----
+
+func VerifC14_CancelDuringWrite() {
+	rt.NoTimers()
+	rt.SchedYieldOnly(true)
+	n := 1
+	if rt.Thorough() {
+		n = 2
+	}
+	rt.Preemptions(n)
+	c14Setup()
+	c14SlowMatch = true
+	writer := NewInterface(&Options{Local: true, Internal: true})
+	iface := NewInterface(nil)
+	// a condition makes the notification look into the record
+	sub, err := iface.Subscribe(query.New("t:a").Where(query.Where("N", query.GreaterThan, 0)))
+	rt.Assert(err == nil, "cancelwrite/subscribe-ok")
+	other, err := iface.Subscribe(query.New("t:a"))
+	rt.Assert(err == nil, "cancelwrite/subscribe-ok")
+	done := make(chan struct{})
+	started := make(chan struct{})
+	var werr error
+	go func() {
+		defer close(done)
+		close(started)
+		// the writer runs until it is preempted at some synchronisation
+		// operation inside Put (or finishes)
+		werr = writer.Put(c14NewRec("ab", 1, false, false))
+	}()
+	<-started
+	if !rt.Symbolic() {
+		time.Sleep(30 * time.Millisecond) // natively: the writer is inside the notification by now
+	}
+	rt.Assert(sub.Cancel() == nil, "cancelwrite/cancel-ok")
+	c14SlowMatch = false
+	// after Cancel returned: the feed is closed, whatever was delivered before
+	// is still readable, nothing arrives afterwards
+	delivered := 0
+	for range sub.Feed {
+		delivered++
+	}
+	rt.Assert(delivered <= 1, "cancelwrite/at-most-the-one-write")
+	<-done
+	rt.Assert(werr == nil, "cancelwrite/write-ok")
+	rt.Assert(len(other.Feed) == 1, "cancelwrite/other-subscription-receives")
+	rt.Reach("cancelwrite-end")
 }
